@@ -11,10 +11,18 @@ pub struct VFail(pub &'static str);
 
 thread_local! {
     static COVERS: RefCell<Vec<&'static str>> = RefCell::new(Vec::new());
+    static FAILS: RefCell<Vec<&'static str>> = RefCell::new(Vec::new());
 }
 
-pub fn fail(m: &'static str) -> ! {
-    panic::panic_any(VFail(m))
+/// A failed obligation is recorded and the run goes on, as under the verifier, where every obligation is
+/// checked on its own (entry.rs `vassert!`): one execution can show several failed obligations.
+pub fn fail(m: &'static str) {
+    FAILS.with(|c| {
+        let mut c = c.borrow_mut();
+        if !c.contains(&m) {
+            c.push(m);
+        }
+    })
 }
 pub fn cover(m: &'static str) {
     COVERS.with(|c| {
@@ -29,7 +37,9 @@ pub fn cover(m: &'static str) {
 pub enum Outcome {
     Pass,
     Discard,
-    Fail(String),
+    /// the obligations that failed in this execution, in the order they were evaluated (a panic that
+    /// follows a failed obligation is a consequence of it and is not reported separately)
+    Fail(Vec<String>),
     Panic(String),
 }
 
@@ -45,7 +55,9 @@ pub fn run_once_rng(f: fn(), script: &[u32], rng: Option<u64>) -> (Outcome, Vec<
             rng,
         }
     });
+    FAILS.with(|c| c.borrow_mut().clear());
     let r = panic::catch_unwind(f);
+    let fails: Vec<String> = FAILS.with(|c| c.borrow().iter().map(|m| m.to_string()).collect());
     let (used, bounds) = ODO.with(|o| {
         let o = o.borrow();
         let n = o.pos.min(o.script.len());
@@ -58,12 +70,25 @@ pub fn run_once_rng(f: fn(), script: &[u32], rng: Option<u64>) -> (Outcome, Vec<
         (used, o.bounds[..n.min(o.bounds.len())].to_vec())
     });
     let out = match r {
-        Ok(()) => Outcome::Pass,
+        Ok(()) => {
+            if fails.is_empty() {
+                Outcome::Pass
+            } else {
+                Outcome::Fail(fails)
+            }
+        }
         Err(e) => {
-            if e.downcast_ref::<Discard>().is_some() {
+            if !fails.is_empty() {
+                // obligations that failed before the run was cut short (by a precondition that does not hold
+                // from here on, or by a panic that follows from the failure) did fail: an assumption made
+                // later does not take back an obligation evaluated earlier (as under the verifier)
+                Outcome::Fail(fails)
+            } else if e.downcast_ref::<Discard>().is_some() {
                 Outcome::Discard
+            } else if false {
+                Outcome::Fail(fails)
             } else if let Some(v) = e.downcast_ref::<VFail>() {
-                Outcome::Fail(v.0.to_string())
+                Outcome::Fail(vec![v.0.to_string()])
             } else if let Some(s) = e.downcast_ref::<&'static str>() {
                 Outcome::Panic(s.to_string())
             } else if let Some(s) = e.downcast_ref::<String>() {
@@ -110,7 +135,7 @@ pub fn sample(f: fn(), runs: u64, seed: u64, stop_on: Option<&str>, rep: &mut Re
         x ^= x << 17;
         let (out, used, _b) = run_once_rng(f, &[], Some(x | 1));
         rep.executions += 1;
-        let (m, p) = match out {
+        let (ms, p) = match out {
             Outcome::Pass => {
                 rep.passes += 1;
                 continue;
@@ -119,12 +144,15 @@ pub fn sample(f: fn(), runs: u64, seed: u64, stop_on: Option<&str>, rep: &mut Re
                 rep.discards += 1;
                 continue;
             }
-            Outcome::Fail(m) => (m, false),
-            Outcome::Panic(m) => (format!("PANIC: {}", m), true),
+            Outcome::Fail(ms) => (ms, false),
+            Outcome::Panic(m) => (vec![format!("PANIC: {}", m)], true),
         };
-        let hit = stop_on.map(|s| m.contains(s) || (p && s == "PANIC")).unwrap_or(false);
-        if !rep.failures.iter().any(|(y, _, _)| *y == m) {
-            rep.failures.push((m, used, p));
+        let mut hit = false;
+        for m in ms {
+            hit |= stop_on.map(|s| m.contains(s) || (p && s == "PANIC")).unwrap_or(false);
+            if !rep.failures.iter().any(|(y, _, _)| *y == m) {
+                rep.failures.push((m, used.clone(), p));
+            }
         }
         if hit {
             return;
@@ -149,10 +177,13 @@ pub fn enumerate(f: fn(), max_runs: u64, stop_on: Option<&str>) -> Report {
         match out {
             Outcome::Pass => rep.passes += 1,
             Outcome::Discard => rep.discards += 1,
-            Outcome::Fail(m) => {
-                let hit = stop_on.map(|s| m.contains(s)).unwrap_or(false);
-                if !rep.failures.iter().any(|(x, _, _)| *x == m) {
-                    rep.failures.push((m, used.clone(), false));
+            Outcome::Fail(ms) => {
+                let mut hit = false;
+                for m in ms {
+                    hit |= stop_on.map(|s| m.contains(s)).unwrap_or(false);
+                    if !rep.failures.iter().any(|(x, _, _)| *x == m) {
+                        rep.failures.push((m, used.clone(), false));
+                    }
                 }
                 if hit {
                     break;
@@ -287,7 +318,7 @@ pub fn main_native() -> i32 {
                     let (status, msg) = match &out {
                         Outcome::Pass => ("pass", String::new()),
                         Outcome::Discard => ("discard", String::new()),
-                        Outcome::Fail(m) => ("fail", m.clone()),
+                        Outcome::Fail(ms) => ("fail", ms.join(" | ")),
                         Outcome::Panic(m) => ("panic", m.clone()),
                     };
                     println!(
